@@ -39,6 +39,14 @@ ScanData(code) == ScanFrom(code, 0)
 IsCode(code, pos)        == pos \notin ScanData(code)
 ValidJumpdest(code, pos) == pos >= 0 /\ pos < Len(code) /\ code[pos + 1] = JUMPDEST /\ IsCode(code, pos)
 
+(* the same definition as one pass over the instruction boundaries, collecting the JUMPDESTs   *)
+(* met there (linear in the number of instructions: used on contract-sized codes)              *)
+RECURSIVE ValidFrom(_, _, _)
+ValidFrom(code, pc, acc) ==
+  IF pc >= Len(code) THEN acc
+  ELSE ValidFrom(code, pc + PushLen(code[pc + 1]) + 1, IF code[pc + 1] = JUMPDEST THEN acc \cup {pc} ELSE acc)
+ValidSet(code) == ValidFrom(code, 0, {})
+
 ---------------------------------------------------------------------------
 (* 2. The bit-vector analysis as the code computes it.  A bit vector is the set of set bit *)
 (* indices; byte i holds bits 8i..8i+7.  "or" adds bits, "assign" replaces a whole byte.   *)
@@ -156,6 +164,10 @@ BitmapRight ==
   frame = NoFrame /\ (\A c \in codes : cache[c] = NoBM) =>
      \A c \in codes : /\ SameOnCode(Analyse(c), c)
                       /\ BitmapAlgo(c).top < AllocBytes(c)
+
+ValidSetRight ==
+  frame = NoFrame /\ (\A c \in codes : cache[c] = NoBM) =>
+     \A c \in codes : ValidSet(c) = {p \in Positions(c) : ValidJumpdest(c, p)}
 
 CacheSound == \A c \in codes : cache[c] # NoBM => SameOnCode(cache[c], c)
 FrameSound == frame # NoFrame /\ frame.analysis # NoBM => SameOnCode(frame.analysis, frame.code)
